@@ -127,6 +127,36 @@ Submeshes(b, L, mesh) == [s \in 1..mesh.submesh_count |->
                             LET r == SubmeshRec(b, L, mesh.submesh_index + s - 1) IN <<r.index_count, r.index_offset>>]
 Stream(b, lod, mesh, s) == SubSeq(b, lod.voff + mesh.vb[s] + 1, lod.voff + mesh.vb[s] + mesh.vcount * mesh.stride[s])
 
+\* shapes reported for a mesh: those with at least one value inside the mesh's index range, found through the
+\* shape meshes of the LOD whose index offset equals the mesh's start index ("as implemented": names only)
+ShapeNames(b, L, i, mesh) ==
+  LET shapeRec(s) == LET o == L.oShape + 16 * (s - 1)
+                     IN [name |-> U32n(b, o), start |-> U16(b, o + 4 + 2 * (i - 1)), count |-> U16(b, o + 10 + 2 * (i - 1))]
+      sm(k) == LET o == L.oShapeMesh + 12 * k IN [off |-> U32n(b, o), n |-> U32n(b, o + 4), first |-> U32n(b, o + 8)]
+      hasValue(s) ==
+        \E k \in shapeRec(s).start..(shapeRec(s).start + shapeRec(s).count - 1) :
+           /\ k < L.nShapeMesh /\ sm(k).off = mesh.start_index
+           /\ \E v \in sm(k).first..(sm(k).first + sm(k).n - 1) :
+                 /\ v < L.nShapeVal
+                 /\ LET base == U16(b, L.oShapeVal + 4 * v)
+                    IN base >= mesh.start_index % 65536 /\ base < (mesh.start_index + mesh.icount) % 65536
+  IN [x \in 1..Cardinality({s \in 1..L.nShape : hasValue(s)}) |->
+        NameAt(b, L, shapeRec(SetToSortSeq({s \in 1..L.nShape : hasValue(s)}, <)[x]).name)]
+
+\* everything a parse reports for mesh j of LOD i
+PartOf(b, L, i, j) ==
+  LET lod == LodRec(b, L, i)
+      mesh == MeshRec(b, L, j)
+      decl == Decl(b, j)
+  IN [nv |-> mesh.vcount,
+      vertices |-> [k \in 1..mesh.vcount |-> VertexAt(b, lod, mesh, decl, k - 1)],
+      indices |-> Indices(b, L, i, mesh), material |-> mesh.material,
+      subs |-> Submeshes(b, L, mesh),
+      streams |-> [s \in 1..mesh.streams |-> Stream(b, lod, mesh, s)],
+      strides |-> [s \in 1..mesh.streams |-> mesh.stride[s]],
+      shapes |-> ShapeNames(b, L, i, mesh)]
+PartsOf(b, L, i) == LET lod == LodRec(b, L, i) IN [p \in 1..lod.mesh_count |-> PartOf(b, L, i, lod.mesh_index + p - 1)]
+
 -----------------------------------------------------------------------------
 (* C07: self-consistency of a header, as the property states it *)
 \* sections of LOD i as half-open intervals <<from, to>>
